@@ -1661,6 +1661,10 @@ class Fn:
 
         self.mutating_calls = []
         full = lambda x: isinstance(x, ast.Slice) and x.lower is None and x.upper is None and x.step is None
+        # tail slice `lo:` (numpy: the right-hand side is evaluated completely, then written — PyRt Extension 3)
+        tail = lambda x: isinstance(x, ast.Slice) and x.lower is not None and x.upper is None and x.step is None
+        seq_rhs = isinstance(st.value, (ast.Tuple, ast.List)) or (
+            isinstance(st.value, ast.Call) and dotted(st.value.func) in ("np.array", "numpy.array"))
         row_value = None
         if aty[0] == "a2" and isinstance(sl, ast.Tuple) and len(sl.elts) == 2 and full(sl.elts[1]) \
                 and not isinstance(sl.elts[0], ast.Slice) and not isinstance(st.value, (ast.Tuple, ast.List)) \
@@ -1686,12 +1690,20 @@ class Fn:
             if not is_scalar(ty):
                 self.unsupported(st, "store (`a[:] = <array>`)")
             text = f"PyRt.A1.full (PyRt.A1.len {a}) {par(self.co(t, ty, elt, st))}"
+        elif aty[0] == "a1" and tail(sl) and not seq_rhs and self.peek_type(st.value)[0] == "a1":
+            t, ty = self.ex(st.value)            # a[lo:] = <1-D value>   (tail-slice store)
+            text = f"PyRt.A1.setTail {a} {self.index(sl.lower)} {par(self.co(t, ty, A1(elt), st))}"
         elif aty[0] == "a1":
             if isinstance(sl, (ast.Tuple, ast.Slice)):
                 self.unsupported(st, "store (slice / 2 indices into a 1-D array)")
             text = f"PyRt.A1.set {a} {self.index(sl)} {value(st.value)}"
         elif isinstance(sl, ast.Tuple) and len(sl.elts) == 2 and not any(isinstance(x, ast.Slice) for x in sl.elts):
             text = f"PyRt.A2.set {a} {self.index(sl.elts[0])} {self.index(sl.elts[1])} {value(st.value)}"
+        elif isinstance(sl, ast.Tuple) and len(sl.elts) == 2 and tail(sl.elts[1]) \
+                and not isinstance(sl.elts[0], ast.Slice) and not seq_rhs and self.peek_type(st.value)[0] == "a1":
+            t, ty = self.ex(st.value)            # a[i, lo:] = <1-D value>   (tail-slice store into one row)
+            text = (f"PyRt.A2.setRowTail {a} {self.index(sl.elts[0])} {self.index(sl.elts[1].lower)} "
+                    f"{par(self.co(t, ty, A1(elt), st))}")
         elif isinstance(sl, ast.Tuple) and len(sl.elts) == 2 and isinstance(sl.elts[1], ast.Slice) \
                 and not isinstance(sl.elts[0], ast.Slice):
             # a[i, :] = (e0, e1)   a[i, c0:c1] = np.array([e0, ..])
